@@ -31,10 +31,14 @@ prop("C01", KERNELS_CODEC + [
     H("H01_shape", quick={"wall": "140s", "shards": 12, "param": "lite=1"}, thorough={"wall": "1500s", "shards": 16}),
     H("H01_width", quick={"wall": "140s", "shards": 4, "param": "widthDocs=1"}, thorough={"wall": "1500s", "shards": 16, "param": "widthDocs=2"}),
 ])
-prop("C02", [H("K8_storedmeta", quick={"wall": "140s", "shards": 8}), H("H02_stored", quick={"wall": "140s", "shards": 16, "param": "wide=0,maxAP=1,maxDocs=1"}, thorough={"wall": "1500s", "shards": 16, "param": "wide=1,maxAP=2,maxDocs=2"})])
-prop("C03", [H("K6_boundaries"), H("H03_coder"), H("H03_dv", quick={"wall": "140s", "shards": 16, "param": "maxDocs=2,maxSeq=4,lite=1"}, thorough={"wall": "1500s", "shards": 16, "param": "maxDocs=3,maxSeq=4"})])
+prop("C02", [H("K8_storedmeta", quick={"wall": "140s", "shards": 8}), H("H02_stored", quick={"wall": "140s", "shards": 16, "param": "wide=0,maxAP=1,maxDocs=1"}, thorough={"wall": "1500s", "shards": 16, "param": "wide=1,maxAP=2,maxDocs=2"}),
+             # stored values larger than a snappy block next to empty and small ones; also through a merge
+             H("H02_big", quick={"wall": "140s", "shards": 12})])
+prop("C03", [H("K6_boundaries"), H("H03_coder"), H("H03_dv", quick={"wall": "140s", "shards": 16, "param": "maxDocs=2,maxSeq=4,lite=1"}, thorough={"wall": "1500s", "shards": 16, "param": "maxDocs=3,maxSeq=4"}),
+             # the visit state carried over to a second segment whose fields (and so field ids) are symbolic
+             H("H03_dv", quick={"wall": "140s", "shards": 16, "param": "maxDocs=1,maxSeq=1,secondSeg=2,seg2sym=1"}, thorough={"wall": "1500s", "shards": 16, "param": "maxDocs=2,maxSeq=2,secondSeg=2,seg2sym=1"})])
 prop("C04", [H("K7_footer"), H("H04_persist", quick={"wall": "140s", "shards": 16, "param": "lite=1,maxDocs=1"}, thorough={"wall": "1500s", "shards": 16, "param": "maxDocs=2"})])
-prop("C05", [H("K9_copystored"), H("H05_merge", common={"param": "maxDocs=1,tieReopen=1,maxOcc=1"}, quick={"wall": "140s", "shards": 12}, thorough={"wall": "1500s", "shards": 16, "param": "maxDocs=2,tieReopen=0,maxOcc=1,gen2=1"}),
+prop("C05", [H("K9_copystored"), H("H02_big", quick={"wall": "140s", "shards": 12}), H("H05_merge", common={"param": "maxDocs=1,tieReopen=1,maxOcc=1"}, quick={"wall": "140s", "shards": 12}, thorough={"wall": "1500s", "shards": 16, "param": "maxDocs=2,tieReopen=0,maxOcc=1,gen2=1"}),
              # field names that sort before "_id"
              H("H05_merge", common={"param": "maxDocs=1,tieReopen=1,maxOcc=1,upperNames=1,symTyp=0"}, quick={"wall": "140s", "shards": 4}, thorough={"skip": True}),
              # three inputs (thorough only)
